@@ -23,10 +23,19 @@ use std::io::Error;
 use std::mem::MaybeUninit;
 use std::os::unix::io::AsRawFd;
 use std::ptr;
+#[cfg(not(sighook_verif))]
 use std::sync::atomic::{AtomicBool, Ordering};
+#[cfg(not(sighook_verif))]
 use std::sync::{Arc, Mutex};
+#[cfg(sighook_verif)]
+use signal_hook_registry::verif_shim::{AtomicBool, Mutex, Ordering};
+#[cfg(sighook_verif)]
+use std::sync::Arc;
 
+#[cfg(not(sighook_verif))]
 use libc::{self, c_int};
+#[cfg(sighook_verif)]
+use signal_hook_registry::verif_shim::libc_facade::{self as libc, c_int};
 
 use super::exfiltrator::Exfiltrator;
 use crate::low_level::pipe::{self, WakeMethod};
